@@ -83,6 +83,9 @@ enum Ev {
     /// a DIRECT_OPERATE_NR with other objects sent to the broadcast address: executed, never
     /// answered, and not the request a later retransmission refers to
     BroadcastNr,
+    /// the same to the confirm-mandatory broadcast address 0xFFFE: the next solicited response
+    /// (of any request, non-READ ones included) asks for a confirm
+    BroadcastNrMandatory,
     Repeat,
     SolConfirm(bool),
     UnsConfirm,
@@ -117,6 +120,7 @@ fn alphabet(reqs: &[R], reconnect: bool) -> Vec<Ev> {
     v.push(Ev::Repeat);
     v.push(Ev::Bad(0));
     v.push(Ev::BroadcastNr);
+    v.push(Ev::BroadcastNrMandatory);
     for r in reqs {
         v.push(Ev::Req(*r));
     }
@@ -181,6 +185,9 @@ impl Scenario for C05 {
         let mut orig_reply: Vec<Vec<u8>> = Vec::new();
         let mut sent: Vec<Vec<u8>> = Vec::new();
         let mut sol_wait = false;
+        // the confirm awaited belongs to a response to the last remembered request (not to the
+        // error response of a request that is not remembered)
+        let mut wait_owned = false;
         let mut sol_expected: u8 = 0;
         let mut uns_outstanding: Option<Vec<u8>> = None;
         let mut toggles = 0u64;
@@ -218,11 +225,11 @@ impl Scenario for C05 {
                     sent_now = Some(if *k == 0 { app::request(last_seq, 0x70, &[]) } else { app::request(last_seq, fc::READ, &[0xFF]) });
                     is_bad = true;
                 }
-                Ev::BroadcastNr => {
+                Ev::BroadcastNr | Ev::BroadcastNrMandatory => {
                     last_seq = (last_seq + 1) & 0x0F;
                     let objs = app::prefixed8(12, 1, &[(9, app::crob(0x04, 7, 170, 11, 0))]);
                     let f = app::request(last_seq, fc::DIRECT_OPERATE_NR, &objs);
-                    sim.send_from(crate::osim::MASTER_ADDR, 0xFFFF, &f);
+                    sim.send_from(crate::osim::MASTER_ADDR, if *ev == Ev::BroadcastNr { 0xFFFF } else { 0xFFFE }, &f);
                 }
                 Ev::Repeat => {
                     if let Some(f) = &last_req {
@@ -327,7 +334,7 @@ impl Scenario for C05 {
                         ));
                         break;
                     }
-                } else if sol_wait {
+                } else if sol_wait && wait_owned {
                     repeats_checked += 1;
                     // E2: an echo during a confirm wait is a fragment already transmitted
                     for r in &sol {
@@ -359,13 +366,14 @@ impl Scenario for C05 {
             }
             if let Some(last) = sol.last() {
                 sol_wait = last.con();
+                wait_owned = !is_bad;
                 sol_expected = last.seq();
             } else {
                 match ev {
                     Ev::Timeout | Ev::Reconnect => sol_wait = false,
                     Ev::Req(_) => sol_wait = false,
                     // a broadcast request is a new request: it ends a solicited series
-                    Ev::BroadcastNr => sol_wait = false,
+                    Ev::BroadcastNr | Ev::BroadcastNrMandatory => sol_wait = false,
                     Ev::SolConfirm(true) => sol_wait = false,
                     _ => {}
                 }
